@@ -284,6 +284,12 @@ Ref(t, o) ==
       [] o.op = "read"           -> ReadRef(t, o.p)
       [] o.op = "copy"           -> CopyRef(t, o.p, o.q)
       [] o.op = "copy_lim"       -> CopyLimRef(t, o.p, o.q, o.c.n)
+      \* File::copy on an OPEN handle of which o.c.n bytes were read before: the post-condition is about
+      \* the whole file, whatever the handle's position
+      [] o.op = "fcopy"          -> CopyRef(t, o.p, o.q)
+      \* the same with the destination on ANOTHER file system (outside the modelled tree): the value is
+      \* the content found there afterwards
+      [] o.op = "fcopy_x"        -> ReadRef(t, o.p)
       [] o.op = "create_dir"     -> Mkdir(t, o.p)
       [] o.op = "create_dir_all" -> CdaRef(t, o.p)
       [] o.op = "remove_dir_all" -> RemoveDirAllRef(t, o.p)
@@ -315,8 +321,8 @@ ValueOk(o, ref, v) ==
 \* paths of the operation that end in "link/" are not judged
 OpUnjudged(t, o) ==
     \/ Unjudged(t, o.p)
-    \/ o.op \in {"copy", "copy_lim", "rename"} /\ Unjudged(t, o.q)
-    \/ o.op \in {"copy", "copy_lim"} /\ CopySameNode(t, o.p, o.q)
+    \/ o.op \in {"copy", "copy_lim", "fcopy", "rename"} /\ Unjudged(t, o.q)
+    \/ o.op \in {"copy", "copy_lim", "fcopy"} /\ CopySameNode(t, o.p, o.q)
 
 \* what a failed call may leave behind
 ErrTreeOk(t, o, t2) ==
@@ -328,7 +334,7 @@ ErrTreeOk(t, o, t2) ==
          /\ (DOMAIN t2) \subseteq (DOMAIN t) /\ \A p \in DOMAIN t2 : t2[p] = t[p]
          /\ (DOMAIN t) \ (DOMAIN t2) \subseteq (Subtree(t, w.p) \ {w.p})
          /\ WellFormed(t2)
-    \/ o.op \in {"copy", "copy_lim"} /\                  \* the destination was opened, nothing arrived
+    \/ o.op \in {"copy", "copy_lim", "fcopy"} /\         \* the destination was opened, nothing arrived
          LET od == OpenForWrite(t, o.q) IN
          od.e = "ok" /\ \E c \in {Empty, od.old} : t2 = Put(t, od.p, File(c))
 
@@ -343,6 +349,8 @@ Accept(t, o, res, t2) ==
               \/ res.class = "err" /\ ErrTreeOk(t, o, t2)
     ELSE IF o.op = "exists" /\ ref.e \notin {"ok"}
          THEN t2 = t /\ (res.class = "err" \/ res.v = FALSE)
+    ELSE IF o.op = "fcopy_x"        \* a refusal (EXDEV) is fine; Ok => the destination holds the WHOLE source
+         THEN t2 = t /\ (res.class = "ok" => (ref.e = "ok" /\ res.v = ref.v))
     ELSE IF o.op = "copy_lim" /\ ref.e = "EFBIG"
          THEN res.class = "err" /\ t2 = ref.t                 \* the prefix that fits, exactly
     ELSE IF ref.e = "ok"
